@@ -214,6 +214,11 @@ impl Compactor {
 		}
 
 		writer.finish()?;
+
+		// Make the merged table durable before the manifest starts referencing it and
+		// the input tables are deleted (same as MemTable::flush does for flushed tables).
+		crate::vfs::open_for_sync(path)?.sync_all()?;
+
 		Ok(true)
 	}
 
